@@ -6,6 +6,8 @@
 #include <sstream>
 #include <thread>
 #include <hgraph/runtime/push_source_node.h>
+#include <hgraph/types/metadata/value_plan_factory.h>
+#include <hgraph/types/value/value_builder.h>
 
 namespace hv {
 
@@ -79,9 +81,27 @@ void apply_dict_ops(const TSOutputView &o, DateTime t, const JV &ops) {
     }
 }
 
+// whole-value write of a partially populated bundle value: {"<field index>": <nested spec or scalar>}; absent fields stay unset
+Value build_partial_value(const TSValueTypeMetaData *schema, const JV &v) {
+    if (schema->kind == TSTypeKind::TS) return value_from_json(schema->value_type, v);
+    if (schema->kind != TSTypeKind::TSB || !v.is_obj()) throw std::runtime_error("harness: setv only populates TS / TSB positions");
+    BundleBuilder bb{ValuePlanFactory::instance().type_for(schema->value_schema)};
+    for (auto &kv : v.o) {
+        const std::size_t index = (std::size_t)std::stoul(kv.first);
+        Value c = build_partial_value(schema->fields()[index].type, kv.second);
+        bb.set(index, c.view());
+    }
+    return bb.build();
+}
+
 void apply_op(const TSOutputView &o, DateTime t, const JV &op) {
     const std::string &k = op.at("k").as_str();
-    if (k == "set") { (void)o.begin_mutation(t).copy_value_from(value_from_json(o.schema()->value_type, op.at("v")).view()); }
+    if (k == "setv") {
+        Value whole = build_partial_value(o.schema(), op.at("v"));
+        if (op.bool_or("move", false)) (void)o.begin_mutation(t).move_value_from(std::move(whole));
+        else (void)o.begin_mutation(t).copy_value_from(whole.view());
+    }
+    else if (k == "set") { (void)o.begin_mutation(t).copy_value_from(value_from_json(o.schema()->value_type, op.at("v")).view()); }
     else if (k == "inval") { (void)o.begin_mutation(t).invalidate(); }
     else if (k == "S") apply_set_ops(o, t, op.at("ops"));
     else if (k == "D") apply_dict_ops(o, t, op.at("ops"));
